@@ -608,6 +608,8 @@ func runC01(c *Check, w *World) {
 	if w.Cfg.Name == CfgWasm.Name && w.SPkgs[WasmPath] != nil {
 		// the derivation behind the JavaScript generateHOTP/generateTOTP: the same composition rules
 		ruleWasmDerivation(c, w, tb, iv, ef, sent, "R01.W")
+		ruleWasmKey(c, w, tb, "R01.W.9", jsRegistrations(w, tb), "generateHOTP")
+		ruleJSNumberCoercion(c, w, "R01.W.9")
 	}
 	gen := w.Func(OtpPath, "GenerateHOTP")
 	if gen == nil {
